@@ -345,6 +345,7 @@ class ArgumentParser:
         namespace = argparse.Namespace()
         namespace.defines = []
         namespace.include_paths = []
+        namespace.system_include_paths = []
         namespace.include_files = []
         namespace.modes = []
 
@@ -369,10 +370,10 @@ class ArgumentParser:
         parser.error = raise_argument_error
 
         parser.add_argument("-D", dest="defines", action="append")
+        parser.add_argument("-I", dest="include_paths", action="append")
         parser.add_argument(
-            "-I",
             "-isystem",
-            dest="include_paths",
+            dest="system_include_paths",
             action="append",
         )
         parser.add_argument(
@@ -430,9 +431,12 @@ class ArgumentParser:
         # Convert the arguments into a list of preprocessor configurations.
         configurations = []
         for pass_name in args.passes:
+            # Directories given with -isystem are searched after all
+            # directories given with -I, whatever their order on the
+            # command line.
             config = PreprocessorConfiguration(
                 args.defines.copy(),
-                args.include_paths.copy(),
+                args.include_paths + args.system_include_paths,
                 args.include_files.copy(),
                 pass_name,
             )
